@@ -13,6 +13,7 @@ mod literal;
 mod spans;
 mod values;
 mod pegcmd;
+mod ptree;
 
 use std::io::{BufRead, Write};
 use std::panic::{catch_unwind, AssertUnwindSafe};
@@ -46,6 +47,7 @@ fn main() {
         "span" => spans::handle,
         "value" => values::handle,
         "peg" => pegcmd::handle,
+        "ptree" => ptree::handle,
         _ => {
             eprintln!("unknown command {cmd}");
             std::process::exit(2);
